@@ -334,3 +334,419 @@ Proof.
   rewrite Zrange_blocks by lia. rewrite Z2Nat.id by lia.
   rewrite <- Zrange_add by nia. f_equal. ring.
 Qed.
+
+(* ============================================================================================
+   4. multi_dim_split = the lexicographic list of boxes *)
+Definition mds_step (b : Z) (blocks : list view) (d : nat) : list view := flat_map (split_dim b d) blocks.
+
+Lemma fold_step_app b ds : forall l1 l2,
+  fold_left (mds_step b) ds (l1 ++ l2) = fold_left (mds_step b) ds l1 ++ fold_left (mds_step b) ds l2.
+Proof.
+  induction ds as [|d ds IH]; intros l1 l2; cbn [fold_left]; [reflexivity|].
+  replace (mds_step b (l1 ++ l2) d) with (mds_step b l1 d ++ mds_step b l2 d)
+    by (unfold mds_step; rewrite flat_map_app; reflexivity).
+  apply IH.
+Qed.
+
+Lemma fold_step_nil b ds : fold_left (mds_step b) ds [] = [].
+Proof. induction ds as [|d ds IH]; cbn [fold_left]; [reflexivity|exact IH]. Qed.
+
+(* splitting every current block along the remaining dims = doing it block by block *)
+Lemma fold_step_flat b ds l :
+  fold_left (mds_step b) ds l = flat_map (fun v => fold_left (mds_step b) ds [v]) l.
+Proof.
+  induction l as [|v l IH]; cbn [flat_map]; [apply fold_step_nil|].
+  change (v :: l) with ([v] ++ l). rewrite fold_step_app, IH. reflexivity.
+Qed.
+
+Lemma mds_step_single b v d : mds_step b [v] d = split_dim b d v.
+Proof. unfold mds_step. cbn [flat_map]. apply app_nil_r. Qed.
+
+Lemma set_nth_middle pre x n ss : set_nth (length pre) x (pre ++ n :: ss) = pre ++ x :: ss.
+Proof. induction pre as [|y pre IH]; cbn [length app set_nth]; [reflexivity|rewrite IH; reflexivity]. Qed.
+
+Lemma skipn_nth_cons (l : list Z) k : (k < length l)%nat -> skipn k l = nth k l 0 :: skipn (S k) l.
+Proof.
+  revert k; induction l as [|y l IH]; intros k Hk; cbn [length] in Hk; [lia|].
+  destruct k as [|k]; [reflexivity|]. cbn [skipn nth]. apply IH. lia.
+Qed.
+
+Lemma mds_from_boxes b : forall post pre off strides,
+  length strides = (length pre + length post)%nat ->
+  fold_left (mds_step b) (seq (length pre) (length post)) [ {| voff := off; vsizes := pre ++ post; vstrides := strides |} ]
+  = map (fun box => {| voff := off + dot (map fst box) (skipn (length pre) strides);
+                       vsizes := pre ++ map snd box; vstrides := strides |}) (boxes post b).
+Proof.
+  induction post as [|n ss IH]; intros pre off strides Hlen.
+  - cbn [length seq fold_left boxes map dot]. rewrite Z.add_0_r. reflexivity.
+  - cbn [length seq fold_left boxes]. rewrite mds_step_single, fold_step_flat. unfold split_dim. cbn [vsizes]. rewrite nth_middle, fm_map, map_fm.
+    apply fm_ext_in. intros c _. unfold narrow. cbn [voff vsizes vstrides fst snd].
+    rewrite set_nth_middle.
+    replace (pre ++ snd c :: ss) with ((pre ++ [snd c]) ++ ss) by (rewrite <- app_assoc; reflexivity).
+    replace (S (length pre)) with (length (pre ++ [snd c])) by (rewrite app_length; cbn [length]; lia).
+    rewrite IH by (rewrite app_length; cbn [length] in *; lia).
+    rewrite map_map. apply map_ext. intros box. cbn [map fst snd].
+    rewrite app_length. cbn [length]. rewrite Nat.add_1_r.
+    rewrite (skipn_nth_cons strides (length pre)) by (cbn [length] in Hlen; lia).
+    cbn [dot]. rewrite <- app_assoc. cbn [app]. f_equal. ring.
+Qed.
+
+Theorem mds_boxes v b : length (vsizes v) = length (vstrides v) ->
+  multi_dim_split v b = map (box_view (voff v) (vstrides v)) (boxes (vsizes v) b).
+Proof.
+  intros Hlen. destruct v as [off sizes strides]. cbn [voff vsizes vstrides] in *.
+  unfold multi_dim_split. cbn [vsizes].
+  change (fun blocks d => flat_map (split_dim b d) blocks) with (mds_step b).
+  pose proof (mds_from_boxes b sizes [] off strides) as H. cbn [length app plus skipn] in H.
+  rewrite H by lia. reflexivity.
+Qed.
+
+Lemma cstrides_length l : length (cstrides l) = length l.
+Proof. induction l as [|x l IH]; cbn [cstrides length]; [reflexivity|rewrite IH; reflexivity]. Qed.
+
+(* ============================================================================================
+   5. exact tiling *)
+(* the boxes of a view address exactly the storage offsets of the view, each once - any strides *)
+Lemma boxes_tile b : 1 <= b -> forall sizes strides off, allpos sizes -> length sizes = length strides ->
+  Permutation (flat_map (fun box => view_offsets (box_view off strides box)) (boxes sizes b))
+              (offsets_from off sizes strides).
+Proof.
+  intros Hb. induction sizes as [|n ss IH]; intros strides off Hpos Hlen.
+  - cbn [boxes flat_map]. unfold view_offsets, box_view. cbn [voff vsizes vstrides map dot offsets_from app].
+    rewrite Z.add_0_r. apply Permutation_refl.
+  - destruct strides as [|st sts]; [discriminate|].
+    inversion Hpos as [|? ? Hn Hss]; subst. cbn [length] in Hlen.
+    cbn [boxes offsets_from]. rewrite fm_flat_map.
+    rewrite <- (split_chunks_tile n b) by lia. rewrite fm_flat_map.
+    apply perm_fm_pointwise. intros c Hc. rewrite !fm_map.
+    (* one chunk c of dimension 0: exchange "for box, for i" with "for i, for box" *)
+    eapply perm_trans.
+    { apply (perm_fm_pointwise _ (fun box => flat_map (fun i => view_offsets (box_view (off + (fst c + i) * st) sts box)) (Zrange (snd c)))).
+      intros box _. unfold view_offsets, box_view. cbn [voff vsizes vstrides map dot offsets_from fst snd].
+      erewrite fm_ext_in; [apply Permutation_refl|]. intros i _. cbn beta. f_equal. ring. }
+    eapply perm_trans; [apply perm_fm_swap|].
+    apply perm_fm_pointwise. intros i _. apply IH; [exact Hss|lia].
+Qed.
+
+(* a contiguous view addresses off, off+1, ..., off+numel-1 in this order *)
+Lemma offsets_contig : forall sizes off, allpos sizes ->
+  offsets_from off sizes (cstrides sizes) = map (Z.add off) (Zrange (prodl sizes)).
+Proof.
+  induction sizes as [|n ss IH]; intros off Hpos.
+  - cbn [offsets_from cstrides]. rewrite prodl_nil. change (Zrange 1) with [0]. cbn [map]. rewrite Z.add_0_r. reflexivity.
+  - inversion Hpos as [|? ? Hn Hss]; subst. cbn [cstrides offsets_from].
+    pose proof (prodl_pos _ Hss) as HR.
+    rewrite (fm_ext_in _ (fun i => map (Z.add (off + i * prodl ss)) (Zrange (prodl ss)))) by (intros; apply IH; exact Hss).
+    rewrite prodl_cons. replace n with (Z.of_nat (Z.to_nat n)) by lia.
+    rewrite <- Zrange_blocks by lia. rewrite map_fm. apply fm_ext_in. intros i _.
+    rewrite map_map. apply map_ext. intros a. ring.
+Qed.
+
+(* ============================================================================================
+   6. every block is a box of the merged shape; sizes; count; element order *)
+Definition valid_box (box : list (Z * Z)) (sizes : list Z) : Prop :=
+  Forall2 (fun c n => 0 <= fst c /\ 1 <= snd c /\ fst c + snd c <= n) box sizes.
+
+(* v is the contiguous view of shape M narrowed, in every dimension d, to [start_d, start_d + len_d):
+   the strides of M, offset = sum start_d * stride_d, sizes = the lengths *)
+Definition narrow_of (M : list Z) (v : view) : Prop :=
+  exists box, valid_box box M /\ v = box_view 0 (cstrides M) box.
+
+Lemma boxes_valid b sizes : 1 <= b -> allpos sizes ->
+  Forall (fun box => valid_box box sizes /\ Forall (fun c => 1 <= snd c <= b) box) (boxes sizes b).
+Proof.
+  intros Hb. induction sizes as [|n ss IH]; intros Hpos.
+  - cbn [boxes]. repeat constructor.
+  - inversion Hpos as [|? ? Hn Hss]; subst. specialize (IH Hss). rewrite Forall_forall in IH.
+    apply Forall_forall. intros box Hin. cbn [boxes] in Hin.
+    apply in_flat_map in Hin as (c & Hc & Hin). apply in_map_iff in Hin as (box' & Hbox & Hin'). subst box.
+    destruct (IH _ Hin') as [Hv Hd].
+    pose proof (split_chunks_in n b c ltac:(lia) Hb Hc) as (H1 & H2 & H3).
+    split; constructor; try assumption. repeat split; lia.
+Qed.
+
+Lemma boxes_length b sizes : 1 <= b -> allpos sizes ->
+  Z.of_nat (length (boxes sizes b)) = prodl (map (fun n => (n + b - 1) / b) sizes).
+Proof.
+  intros Hb. induction sizes as [|n ss IH]; intros Hpos; [reflexivity|].
+  inversion Hpos as [|? ? Hn Hss]; subst. cbn [boxes map]. rewrite prodl_cons, <- IH by exact Hss.
+  rewrite (fm_length_const _ _ (length (boxes ss b))) by (intros; apply map_length).
+  rewrite Nat2Z.inj_mul, split_chunks_count by lia. reflexivity.
+Qed.
+
+Lemma sorted_app l1 : forall l2 T, StronglySorted Z.lt l1 -> StronglySorted Z.lt l2 ->
+  Forall (fun x => x < T) l1 -> Forall (fun y => T <= y) l2 -> StronglySorted Z.lt (l1 ++ l2).
+Proof.
+  induction l1 as [|a l1 IH]; intros l2 T H1 H2 HF1 HF2; cbn [app]; [exact H2|].
+  inversion H1 as [|? ? Hs Ha]; subst. inversion HF1 as [|? ? HaT HF1']; subst.
+  constructor; [eapply IH; eassumption|].
+  apply Forall_app; split; [exact Ha|]. eapply Forall_impl; [|exact HF2]. cbv beta; intros; lia.
+Qed.
+
+Lemma windows_sorted (f : Z -> list Z) B R : 0 <= R ->
+  (forall i, 0 <= i -> StronglySorted Z.lt (f i) /\ Forall (fun x => B + i * R <= x < B + (i + 1) * R) (f i)) ->
+  forall m : nat, StronglySorted Z.lt (flat_map f (Zrange (Z.of_nat m)))
+                  /\ Forall (fun x => B <= x < B + Z.of_nat m * R) (flat_map f (Zrange (Z.of_nat m))).
+Proof.
+  intros HR Hf. induction m as [|m [IH1 IH2]]; [split; constructor|].
+  rewrite Nat2Z.inj_succ. unfold Z.succ. rewrite Zrange_succ by lia.
+  rewrite flat_map_app. cbn [flat_map]. rewrite app_nil_r.
+  destruct (Hf (Z.of_nat m) ltac:(lia)) as [Hs Hw].
+  split.
+  - apply sorted_app with (T := B + Z.of_nat m * R); try assumption.
+    + eapply Forall_impl; [|exact IH2]. cbv beta; intros; lia.
+    + eapply Forall_impl; [|exact Hw]. cbv beta; intros; lia.
+  - apply Forall_app; split.
+    + eapply Forall_impl; [|exact IH2]. cbv beta; intros; nia.
+    + eapply Forall_impl; [|exact Hw]. cbv beta; intros; nia.
+Qed.
+
+(* a box of a contiguous tensor enumerates its storage offsets in increasing order, i.e. the block's own
+   row-major order is the row-major (= storage) order of the whole tensor restricted to the block *)
+Lemma box_sorted : forall sizes box base, allpos sizes -> valid_box box sizes ->
+  StronglySorted Z.lt (view_offsets (box_view base (cstrides sizes) box))
+  /\ Forall (fun x => base <= x < base + prodl sizes) (view_offsets (box_view base (cstrides sizes) box)).
+Proof.
+  induction sizes as [|n ss IH]; intros box base Hpos Hv; inversion Hv as [|c n' box' ss' Hc Hv']; subst.
+  - unfold view_offsets, box_view. cbn [voff vsizes vstrides map dot offsets_from cstrides].
+    rewrite prodl_nil. split; repeat constructor; lia.
+  - inversion Hpos as [|? ? Hn Hss]; subst. pose proof (prodl_pos _ Hss) as HR.
+    set (R := prodl ss) in *.
+    assert (E : view_offsets (box_view base (cstrides (n :: ss)) (c :: box'))
+                = flat_map (fun i => view_offsets (box_view ((base + fst c * R) + i * R) (cstrides ss) box')) (Zrange (snd c))).
+    { unfold view_offsets, box_view. cbn [voff vsizes vstrides map dot offsets_from cstrides]. fold R.
+      apply fm_ext_in. intros i _. f_equal. ring. }
+    rewrite E.
+    destruct (windows_sorted (fun i => view_offsets (box_view ((base + fst c * R) + i * R) (cstrides ss) box'))
+                             (base + fst c * R) R ltac:(lia)) with (m := Z.to_nat (snd c)) as [H1 H2].
+    { intros i Hi. destruct (IH box' ((base + fst c * R) + i * R) Hss Hv') as [Ha Hb].
+      split; [exact Ha|]. eapply Forall_impl; [|exact Hb]. cbv beta. fold R. intros; lia. }
+    rewrite Z2Nat.id in H1, H2 by lia. split; [exact H1|].
+    eapply Forall_impl; [|exact H2]. cbv beta. rewrite prodl_cons. fold R. intros a Ha.
+    destruct Hc as (Hc1 & Hc2 & Hc3).
+    assert (0 <= fst c * R) by nia. assert ((fst c + snd c) * R <= n * R) by nia. lia.
+Qed.
+
+Lemma merged_shape_pos shape thr merge : allpos shape -> allpos (merged_shape shape thr merge).
+Proof.
+  intros H. unfold merged_shape. destruct merge; [|exact H].
+  apply (merge_small_dims_spec shape thr H).
+Qed.
+
+Lemma merged_shape_numel shape thr merge : prodl (merged_shape shape thr merge) = prodl shape.
+Proof. unfold merged_shape. destruct merge; [apply merge_numel|reflexivity]. Qed.
+
+Lemma blocks_as_boxes shape thr merge :
+  blocks shape thr merge
+  = map (box_view 0 (cstrides (merged_shape shape thr merge))) (boxes (merged_shape shape thr merge) thr).
+Proof.
+  unfold blocks, distributor_init. cbn [param_blocks].
+  rewrite mds_boxes by (cbn [contig_view vsizes vstrides]; rewrite cstrides_length; reflexivity).
+  reflexivity.
+Qed.
+
+(* every storage offset 0 .. numel-1 of the parameter is addressed by exactly one element of exactly one block *)
+Theorem blocks_tile shape thr merge : allpos shape -> 1 <= thr ->
+  Permutation (concat (map view_offsets (blocks shape thr merge))) (Zrange (prodl shape)).
+Proof.
+  intros Hpos Hthr. rewrite <- flat_map_concat_map, blocks_as_boxes, fm_map.
+  pose proof (merged_shape_pos shape thr merge Hpos) as HM.
+  eapply perm_trans; [apply (boxes_tile thr Hthr); [exact HM|rewrite cstrides_length; reflexivity]|].
+  rewrite offsets_contig by exact HM. rewrite merged_shape_numel.
+  rewrite (map_ext _ (fun x => x)) by (intros; lia). rewrite map_id. apply Permutation_refl.
+Qed.
+
+Corollary blocks_offsets_nodup shape thr merge : allpos shape -> 1 <= thr ->
+  NoDup (concat (map view_offsets (blocks shape thr merge)))
+  /\ forall x, In x (concat (map view_offsets (blocks shape thr merge))) <-> 0 <= x < prodl shape.
+Proof.
+  intros Hpos Hthr. pose proof (blocks_tile shape thr merge Hpos Hthr) as HP. split.
+  - eapply Permutation_NoDup; [apply Permutation_sym; exact HP|].
+    unfold Zrange. apply FinFun.Injective_map_NoDup; [intros a b; lia|apply seq_NoDup].
+  - intros x. rewrite <- In_Zrange. split; intros H.
+    + eapply Permutation_in; [exact HP|exact H].
+    + eapply Permutation_in; [apply Permutation_sym; exact HP|exact H].
+Qed.
+
+(* no block dimension exceeds max_preconditioner_dim (and none is empty) *)
+Theorem block_dims_le shape thr merge : allpos shape -> 1 <= thr ->
+  Forall (fun v => Forall (fun d => 1 <= d <= thr) (vsizes v)) (blocks shape thr merge).
+Proof.
+  intros Hpos Hthr. rewrite blocks_as_boxes. apply Forall_map.
+  pose proof (boxes_valid thr _ Hthr (merged_shape_pos shape thr merge Hpos)) as H.
+  eapply Forall_impl; [|exact H]. cbv beta. intros box [_ Hd]. cbn [box_view vsizes].
+  apply Forall_map. exact Hd.
+Qed.
+
+(* every block is the merged contiguous view narrowed in each dimension (the strides of the merged
+   parameter, offset = sum start_d * stride_d); its own row-major enumeration visits the parameter's
+   storage in increasing order, inside the parameter *)
+Theorem blocks_row_major shape thr merge : allpos shape -> 1 <= thr ->
+  Forall (fun v => narrow_of (merged_shape shape thr merge) v
+                   /\ StronglySorted Z.lt (view_offsets v)
+                   /\ Forall (fun x => 0 <= x < prodl shape) (view_offsets v))
+         (blocks shape thr merge).
+Proof.
+  intros Hpos Hthr. rewrite blocks_as_boxes. apply Forall_map.
+  pose proof (merged_shape_pos shape thr merge Hpos) as HM.
+  pose proof (boxes_valid thr _ Hthr HM) as H.
+  eapply Forall_impl; [|exact H]. cbv beta. intros box [Hv _].
+  split; [exists box; split; [exact Hv|reflexivity]|].
+  destruct (box_sorted _ box 0 HM Hv) as [H1 H2]. split; [exact H1|].
+  rewrite merged_shape_numel in H2. eapply Forall_impl; [|exact H2]. cbv beta; intros; lia.
+Qed.
+
+Theorem num_blocks_formula shape thr merge : allpos shape -> 1 <= thr ->
+  Z.of_nat (length (blocks shape thr merge))
+  = prodl (map (fun n => (n + thr - 1) / thr) (merged_shape shape thr merge)).
+Proof.
+  intros Hpos Hthr. rewrite blocks_as_boxes, map_length.
+  apply boxes_length; [exact Hthr|apply merged_shape_pos; exact Hpos].
+Qed.
+
+(* the gradient is viewed with the stored merged dims and split with the same block size: it yields the
+   same views (relative to the gradient's storage), hence block i of the gradient covers the same index
+   set, in the same order, as block i of the parameter *)
+Theorem grad_blocks_same_index_sets shape thr merge :
+  let st := distributor_init shape thr merge in
+  block_gradients st thr = param_blocks st
+  /\ length (block_gradients st thr) = num_blocks st
+  /\ map view_offsets (block_gradients st thr) = map view_offsets (param_blocks st).
+Proof. cbn. repeat split; reflexivity. Qed.
+
+(* ============================================================================================
+   7. the specification of merge_small_dims determines it: any grouping of the squeezed shape that obeys
+      the threshold on fused groups and is greedy-maximal has exactly the model's products *)
+Lemma merge_loop_unique thr : forall rest p g0 tl,
+  p <> [] -> allpos (p ++ rest) -> concat (g0 :: tl) = p ++ rest -> (exists x, g0 = p ++ x) ->
+  Forall (fun g => g <> []) (g0 :: tl) -> Forall (small_group thr) (g0 :: tl) -> greedy_adjacent thr (g0 :: tl) ->
+  map prodl (g0 :: tl) = merge_loop thr (prodl p) rest.
+Proof.
+  induction rest as [|n rest IH]; intros p g0 tl Hp Hpos Hc (x & Hx) Hne Hsm Hg.
+  - subst g0. cbn [concat] in Hc. rewrite <- app_assoc, app_nil_r in Hc.
+    assert (Hx0 : x ++ concat tl = []) by (apply (app_inv_head p); rewrite Hc, app_nil_r; reflexivity).
+    apply app_eq_nil in Hx0 as [Hx0 Htl]. subst x.
+    destruct tl as [|g1 tl'].
+    + cbn [map merge_loop]. rewrite app_nil_r. reflexivity.
+    + exfalso. cbn [concat] in Htl. apply app_eq_nil in Htl as [Hg1 _].
+      inversion Hne as [|? ? _ Hne']; subst. inversion Hne'; subst. congruence.
+  - subst g0. cbn [concat] in Hc. rewrite <- app_assoc in Hc. apply app_inv_head in Hc.
+    apply allpos_app in Hpos as [Hpp Hpr]. inversion Hpr as [|? ? Hn Hpr']; subst.
+    pose proof (prodl_pos _ Hpp) as Hpp0.
+    cbn [merge_loop]. destruct x as [|y x'].
+    + (* the first group is exactly p: the next group starts with n, greedy says it could not be fused *)
+      rewrite app_nil_r in *. cbn [app] in Hc.
+      destruct tl as [|g1 tl']; [discriminate|].
+      inversion Hne as [|? ? _ Hne']; subst. inversion Hne' as [|? ? Hg1 _]; subst.
+      destruct g1 as [|y g1']; [congruence|]. cbn [concat app] in Hc. injection Hc as Hy Hc. subst y.
+      cbn [greedy_adjacent] in Hg. destruct Hg as [Hg1' Hg2].
+      replace (prodl p * n <=? thr) with false by lia.
+      cbn [map]. f_equal.
+      pose proof (Forall_inv_tail Hsm) as Hsm'.
+      replace n with (prodl [n]) at 2 by (rewrite prodl_cons, prodl_nil; ring).
+      apply (IH [n] (n :: g1') tl').
+      * discriminate.
+      * cbn [app]. constructor; assumption.
+      * cbn [concat app]. rewrite Hc. reflexivity.
+      * exists g1'. reflexivity.
+      * exact Hne'.
+      * exact Hsm'.
+      * exact Hg2.
+    + (* the first group continues with y = n: it has >= 2 dims, so its product is within thr *)
+      cbn [app] in Hc. injection Hc as Hy Hc. subst y.
+      pose proof (Forall_inv Hsm) as Hs0. cbv beta in Hs0.
+      assert (Hle : prodl (p ++ n :: x') <= thr).
+      { apply Hs0. rewrite app_length. cbn [length]. destruct p; [congruence|cbn [length]; lia]. }
+      assert (Hx'pos : allpos x').
+      { assert (Hall : allpos (x' ++ concat tl)) by (rewrite Hc; exact Hpr').
+        apply allpos_app in Hall. apply Hall. }
+      pose proof (prodl_pos _ Hx'pos) as Hx0.
+      rewrite prodl_app, prodl_cons in Hle.
+      replace (prodl p * n <=? thr) with true by nia.
+      replace (prodl p * n) with (prodl (p ++ [n])) by (rewrite prodl_app, prodl_cons, prodl_nil; ring).
+      apply (IH (p ++ [n]) (p ++ n :: x') tl).
+      * destruct p; discriminate.
+      * rewrite <- app_assoc. cbn [app]. apply allpos_app. split; [exact Hpp|constructor; assumption].
+      * cbn [concat]. rewrite <- !app_assoc. cbn [app]. rewrite Hc. reflexivity.
+      * exists x'. rewrite <- app_assoc. reflexivity.
+      * exact Hne.
+      * exact Hsm.
+      * exact Hg.
+Qed.
+
+Theorem merge_small_dims_unique shape thr out groups : allpos shape ->
+  is_merge_of thr (squeezed_or_one shape) out groups -> greedy_adjacent thr groups ->
+  out = merge_small_dims shape thr.
+Proof.
+  intros Hpos (Hc & Hne & Hmap & Hsm) Hg. unfold merge_small_dims.
+  pose proof (squeezed_or_one_pos shape Hpos) as Hsqpos.
+  destruct (squeezed_or_one shape) as [|d rest] eqn:E; [exfalso; eapply squeezed_or_one_nonempty; exact E|].
+  destruct groups as [|g0 tl]; [discriminate|].
+  inversion Hne as [|? ? Hg0 _]; subst.
+  destruct g0 as [|d' x]; [congruence|].
+  assert (d' = d) by (cbn [concat app] in Hc; congruence). subst d'.
+  replace d with (prodl [d]) at 2 by (rewrite prodl_cons, prodl_nil; ring).
+  apply (merge_loop_unique thr rest [d] (d :: x) tl); try assumption.
+  - discriminate.
+  - exists x. reflexivity.
+Qed.
+
+(* ============================================================================================
+   8. the property predicate on a list of observed blocks, and the model satisfies it *)
+Definition C05_spec (shape : list Z) (thr : Z) (merge : bool) (obs : list view) : Prop :=
+  exists M, allpos M /\ prodl M = prodl shape
+    /\ (if merge then exists groups, is_merge_of thr (squeezed_or_one shape) M groups else M = shape)
+    /\ Forall (narrow_of M) obs
+    /\ Forall (fun v => StronglySorted Z.lt (view_offsets v)) obs
+    /\ Forall (fun v => Forall (fun d => 1 <= d <= thr) (vsizes v)) obs
+    /\ Permutation (concat (map view_offsets obs)) (Zrange (prodl shape)).
+
+Theorem model_satisfies_spec shape thr merge : allpos shape -> 1 <= thr ->
+  C05_spec shape thr merge (blocks shape thr merge).
+Proof.
+  intros Hpos Hthr. exists (merged_shape shape thr merge).
+  split; [apply merged_shape_pos; exact Hpos|]. split; [apply merged_shape_numel|].
+  split; [|split; [|split; [|split]]].
+  - unfold merged_shape. destruct merge; [|reflexivity].
+    destruct (merge_small_dims_spec shape thr Hpos) as (_ & (groups & Hm & _) & _). exists groups; exact Hm.
+  - eapply Forall_impl; [|apply (blocks_row_major shape thr merge Hpos Hthr)]. cbv beta; intros v H; apply H.
+  - eapply Forall_impl; [|apply (blocks_row_major shape thr merge Hpos Hthr)]. cbv beta; intros v H; apply H.
+  - apply block_dims_le; assumption.
+  - apply blocks_tile; assumption.
+Qed.
+
+(* ============================================================================================
+   9. non-vacuity: the hypotheses are satisfiable and the conclusions say something on real instances *)
+Example merge_example :
+  allpos [1; 2; 4; 1; 2; 5] /\ merge_small_dims [1; 2; 4; 1; 2; 5] 8 = [8; 2; 5]
+  /\ is_merge_of 8 (squeezed_or_one [1; 2; 4; 1; 2; 5]) [8; 2; 5] [[2; 4]; [2]; [5]]
+  /\ greedy_adjacent 8 [[2; 4]; [2]; [5]].
+Proof.
+  split; [repeat constructor|]. split; [reflexivity|]. split.
+  - repeat split; try reflexivity.
+    + repeat constructor; discriminate.
+    + repeat constructor; unfold small_group; cbn; lia.
+  - cbn. lia.
+Qed.
+
+Example merge_example_order0 : merge_small_dims [] 5 = [1] /\ merge_small_dims [1; 1; 1] 1 = [1].
+Proof. split; reflexivity. Qed.
+
+(* a fused group may not exceed thr, a single original dimension may: [7] stays although 7 > 4 *)
+Example merge_example_large_dim : merge_small_dims [2; 2; 7; 3] 4 = [4; 7; 3].
+Proof. reflexivity. Qed.
+
+Example blocks_example :
+  allpos [5; 3] /\ 1 <= 2
+  /\ blocks [5; 3] 2 false
+     = [ mkv 0 [2; 2] [3; 1]; mkv 2 [2; 1] [3; 1]; mkv 6 [2; 2] [3; 1]; mkv 8 [2; 1] [3; 1];
+         mkv 12 [1; 2] [3; 1]; mkv 14 [1; 1] [3; 1] ]
+  /\ concat (map view_offsets (blocks [5; 3] 2 false)) = [0; 1; 3; 4; 2; 5; 6; 7; 9; 10; 8; 11; 12; 13; 14]
+  /\ Zrange (prodl [5; 3]) = [0; 1; 2; 3; 4; 5; 6; 7; 8; 9; 10; 11; 12; 13; 14].
+Proof. split; [repeat constructor|]. split; [lia|]. repeat split; reflexivity. Qed.
+
+Example blocks_example_merged :
+  merged_shape [2; 1; 3; 4] 6 true = [6; 4]
+  /\ blocks [2; 1; 3; 4] 6 true = [ mkv 0 [6; 4] [4; 1] ]
+  /\ blocks [2; 1; 3; 4] 3 true = [ mkv 0 [2; 3; 3] [12; 4; 1]; mkv 3 [2; 3; 1] [12; 4; 1] ].
+Proof. repeat split; reflexivity. Qed.
